@@ -33,7 +33,10 @@ MANIFEST = {
             "(canon_parse), hence the text determines the value (canon_injective); the ES6 text and the repr text of a "
             "double denote the same exact decimal 0.d1..dk*10^n under an independent number reader, so numbers parse back "
             "to the same value (es6_denotes, num_value_preserved, num_roundtrip); NaN/Infinity refused at any depth; strict "
-            "order under distinct keys.",
+            "order under distinct keys. Source text (Props/C16Src.v): the ast of convert2Es6Format, translated on every run "
+            "into a small imperative language with an interpreter, is the pinned program, and that program computes the "
+            "model function on every input, so num_es6 holds of the text itself; sort key, separators, ensure_ascii and "
+            "the escape table of Canonicalize.py are read from the ast and checked against the model.",
     "design_ref": "DESIGN.md 6/C16, A.3, A.4",
     "note": "Model hand-written; tied to /repo by a correspondence run each check (doubles by bit pattern, boundary "
             "decimals, strings/keys with BMP/astral/control characters, nesting to depth 6, shuffled orders). "
